@@ -1,4 +1,5 @@
 import Hive.Proofs.SerixNoPanic
+import Hive.Proofs.SerixEncOrder
 /-!
 # C01 (binary serix part) — the codec round-trips every encodable value
 
@@ -47,6 +48,45 @@ theorem C01_encode_perm_invariant (lp : LP) (r : Rules) (k v : Ty) (o : Opts) (k
     rw [encSeq_ordered_perm hperm] at hseq
     simp only [hk', Bool.not_true, Bool.false_eq_true, if_false, ← hp.length_eq, hb, Res.require_true,
       Res.ok_bind, hdata', hseq]
+
+/-- **Determinism at full strength: every depth, every type.**  `VEquiv v v'` (`Hive/Spec/SerixOrder.lean`):
+two listings of the same Go value — the entries of every map, however deep it sits (in a struct field, a slice /
+array element, behind a pointer, inside an interface alternative, in the value of another map), may be visited
+in another order.  `Encode` gives the same result for both: identical bytes, and the second call fails exactly
+when the first does.  Any schema (no well-formedness needed), any rules, both validation modes. -/
+theorem C01_encode_order_irrelevant (t : Ty) (v v' : Val) (o : Opts) (h : VEquiv v v') :
+    encode t v' o = encode t v o :=
+  eo_ty t true v v' o h
+
+/-- A non-trivial instance of the hypothesis: a struct whose field is a map with interface-typed values that
+hold two different registered implementations (each a struct with a map of its own), outer and inner entries
+listed in different orders. -/
+example :
+    VEquiv
+      (.l [.l [.kv (.n 1) (.alt 100 (.l [.l [.kv (.n 7) (.n 1), .kv (.n 8) (.n 0)]])),
+               .kv (.n 2) (.alt 101 (.l [.n 5]))]])
+      (.l [.l [.kv (.n 2) (.alt 101 (.l [.n 5])),
+               .kv (.n 1) (.alt 100 (.l [.l [.kv (.n 8) (.n 0), .kv (.n 7) (.n 1)]]))]]) := by
+  refine .list (.cons (.map (ys := [.kv (.n 1) (.alt 100 (.l [.l [.kv (.n 8) (.n 0), .kv (.n 7) (.n 1)]])),
+    .kv (.n 2) (.alt 101 (.l [.n 5]))]) (.cons (.kv (.alt 100 (.list (.cons ?_ .nil)))) (VEquivL_refl _))
+    (List.Perm.swap _ _ _) (by decide)) .nil)
+  exact .map (VEquivL_refl _) (List.Perm.swap _ _ _) (by decide)
+
+/-- … and its two listings are encoded to the same 13 bytes by the schema of such a type (`decide`d on the model). -/
+example :
+    let inner : Ty := .struct (some ⟨.u8, 100⟩) (.cons false (.map .u8 {} (.uint 1) .bool) .nil)
+    let other : Ty := .struct (some ⟨.u8, 101⟩) (.cons false (.uint 2) .nil)
+    let t : Ty := .struct none (.cons false (.map .u16 {} (.uint 1) (.iface .u8 (.cons 100 inner (.cons 101 other .nil)))) .nil)
+    encode t (.l [.l [.kv (.n 2) (.alt 101 (.l [.n 5])),
+               .kv (.n 1) (.alt 100 (.l [.l [.kv (.n 8) (.n 0), .kv (.n 7) (.n 1)]]))]]) ⟨true, false⟩
+      = .ok [2, 0, 1, 100, 2, 7, 1, 8, 0, 2, 101, 5, 0] := by decide
+
+/-- Round trip from any listing: whatever order Go visits the entries of the maps inside `v` in (`v'`), what
+`Decode` returns for the produced bytes is the canonical form of `v`. -/
+theorem C01_decode_encode_any_order (t : Ty) (v v' : Val) (o : Opts) (b : Bytes) (hwf : t.wf = true)
+    (hq : VEquiv v v') (h : encode t v' o = .ok b) (hlen : b.length < 2 ^ 32) :
+    ∀ rest, decode t (b ++ rest) o = .ok (canon t v o, b.length) :=
+  C01_decode_encode t v o b hwf (by rw [← C01_encode_order_irrelevant t v v' o hq]; exact h) hlen
 
 /-- The unrestricted statement (no `wf`): false for the code as it is, see the witnesses below. -/
 def C01_binary_statement : Prop :=
